@@ -177,6 +177,36 @@ POP_CASE = st.tuples(st.lists(PEER_SPEC, max_size=120), REPORT, st.integers(0, 3
                      st.sampled_from([0, 0, 0, 30, 44, 48, 90, 200])).map(list)
 
 
+class OrderedPeers:
+    '''Stands in for PeerManager.peers (a set of objects hashed by identity, whose iteration order
+    differs from run to run): same operations, insertion order, so a case is a pure function of
+    its value.'''
+
+    def __init__(self, items=()):
+        self._d = dict.fromkeys(items)
+
+    def add(self, x):
+        self._d[x] = None
+
+    def remove(self, x):
+        del self._d[x]
+
+    def discard(self, x):
+        self._d.pop(x, None)
+
+    def copy(self):
+        return OrderedPeers(self._d)
+
+    def __iter__(self):
+        return iter(list(self._d))
+
+    def __len__(self):
+        return len(self._d)
+
+    def __contains__(self, x):
+        return x in self._d
+
+
 def make_env(report_services):
     os.environ.clear()
     os.environ.update(DB_DIRECTORY='/tmp', DAEMON_URL='http://u:p@localhost/',
@@ -195,6 +225,7 @@ def run_population(case):
     env = make_env(report)
     peers_mod.time = FakeTime
     pm = peers_mod.PeerManager(env, None)
+    pm.peers = OrderedPeers()
     for me in pm.myselves:      # one verification state per own host name
         me.last_good = [0, NOW - 60, NOW - STALE - 1, NOW - 5][(my_good + me.is_tor) % 4]
     info = {'eligible_by_bucket': {}, 'ineligible': set(), 'n': len(specs)}
@@ -273,7 +304,9 @@ def run_population(case):
                     f'(tor requester: {is_tor}, other peers: {others})'), 'onion', info
         info['returned'] = len(result)
         info['onion'] = onion
-        info['last_result'] = result
+        # (the reply is built from a set of objects hashed by identity: order it by host name, so
+        # that what happens to 'the j-th advertised peer' below is the same in every execution)
+        info['last_result'] = sorted(result, key=lambda t: str(t[1]))
         return None, None, info
 
     msg, sig, _ = query_and_judge('first query')
@@ -565,6 +598,7 @@ def run_verify(case):
     peers_mod.time = FakeTime
     random.seed(case['rseed'])
     pm = peers_mod.PeerManager(env, VerifyDB())
+    pm.peers = OrderedPeers()
     host = 'peer1.example0.org' if case['kind'] == 'name' else '8.8.0.2'
     ip = '8.8.0.2'
     prior = [0, NOW - 60, NOW - STALE - 10][case['prior']]
